@@ -2,8 +2,8 @@
 META = dict(
     engine="grid", level="exploration",
     technique="bounded-exhaustive enumeration of simple lattice polygons x lattice points against an exact integer ray-crossing reference (no sampling)",
-    text="Every vertex sequence (all rotations, both orientations) of 3 and 4 distinct points of the 4x4 integer grid and of 5 points of the 3x3 grid "
-         "(4x4 in thorough) that forms a simple polygon - decided by exact segment-intersection tests - is queried at every point of the grid "
+    text="Every vertex sequence (all rotations, both orientations) of 3 points of the 5x5 and 4x4 integer grids, 4 points of the 4x4 grid and 5 points of the 3x3 grid "
+         "(thorough adds 6 on 3x3, 4 on 5x5, 5 on 4x4) that forms a simple polygon - decided by exact segment-intersection tests - is queried at every point of the grid "
          "enlarged by a one-cell margin: inside/outside with both side flags, insideOnly, outsideOnly, sideOnly and wind are compared with an exact "
          "classification IN / ON / OUT (boundary by integer collinearity, interior by the parity of proper crossings of a ray whose slope avoids "
          "every lattice point). tween2 is checked for every (p, u, v) triple of the grid.",
@@ -185,12 +185,9 @@ def work(job):
 
 
 def families():
-    fams = [(3, 4), (4, 4)]
-    fams.append((5, 3) if core.TIER == "quick" else (5, 4))
-    if core.TIER == "thorough":
-        fams.insert(2, (5, 3))
-        fams.append((6, 3))
-    return fams
+    if core.TIER == "quick":
+        return [(3, 4), (3, 5), (4, 4), (5, 3)]
+    return [(3, 4), (3, 5), (4, 4), (5, 3), (6, 3), (4, 5), (5, 4)]
 
 
 def run():
